@@ -660,10 +660,18 @@ theorem dedupLower_head (a : PStr) (acc : List PStr) (seen : List PStr) (l : Lis
     · exact ih (acc ++ [e]) _
 
 /-- the first known encoding is the first candidate, whatever BOM or declaration there is -/
-theorem detectorEncodings_head (enc : PStr) (rest : List PStr) (sniffed declared : Option PStr) :
-    ∃ tl, detectorEncodings (enc :: rest) sniffed declared = enc :: tl := by
-  unfold detectorEncodings
+theorem detectorEncodingsU_head (enc : PStr) (rest : List PStr) (sniffed : Option PStr) (user : List PStr)
+    (declared : Option PStr) : ∃ tl, detectorEncodingsU (enc :: rest) sniffed user declared = enc :: tl := by
+  unfold detectorEncodingsU
   simp only [List.cons_append, List.foldl_cons, List.contains_nil, Bool.false_eq_true, if_false, List.nil_append]
+  exact dedupLower_head enc [] _ _
+
+/-- without known encodings and without a byte-order mark, the first user encoding is the first candidate -/
+theorem detectorEncodingsU_user_head (enc : PStr) (rest : List PStr) (declared : Option PStr) :
+    ∃ tl, detectorEncodingsU [] none (enc :: rest) declared = enc :: tl := by
+  unfold detectorEncodingsU
+  simp only [Option.toList, List.nil_append, List.cons_append, List.foldl_cons, List.contains_nil, Bool.false_eq_true,
+    if_false]
   exact dedupLower_head enc [] _ _
 
 /-- a successful conversion by a codec the model decodes is `.ok` -/
@@ -691,15 +699,54 @@ theorem attempt_ok (T : MsTables) (r : PStr) (mode : Mode) (data : Bytes) (u : P
 
 /-- when the first known encoding is found by `find_codec` and converts, that conversion is the result:
     no later candidate (BOM, declaration, utf-8, windows-1252) is consulted -/
+theorem unicodeDammitWithU_first (T : MsTables) (enc r : PStr) (rest user : List PStr) (declared : Option PStr) (mode : Mode)
+    (markup : Bytes) (u : PStr) (hne : markup ≠ []) (hf : findCodec enc = some r)
+    (h : convertWith T r mode false (stripBom markup).1 = some u) :
+    unicodeDammitWithU T (enc :: rest) user declared mode markup = .ok u false (some r) := by
+  unfold unicodeDammitWithU
+  simp only [hne, if_false]
+  obtain ⟨tl, htl⟩ := detectorEncodingsU_head enc rest (stripBom markup).2 user declared
+  simp only [htl, pass1, convertFromSt, hf, List.contains_nil, Bool.false_eq_true, if_false, List.nil_append,
+    attempt_ok T r mode _ u h]
+
 theorem unicodeDammitWith_first (T : MsTables) (enc r : PStr) (rest : List PStr) (declared : Option PStr) (mode : Mode)
     (markup : Bytes) (u : PStr) (hne : markup ≠ []) (hf : findCodec enc = some r)
     (h : convertWith T r mode false (stripBom markup).1 = some u) :
-    unicodeDammitWith T (enc :: rest) declared mode markup = .ok u false (some r) := by
-  unfold unicodeDammitWith
-  simp only [hne, if_false]
-  obtain ⟨tl, htl⟩ := detectorEncodings_head enc rest (stripBom markup).2 declared
+    unicodeDammitWith T (enc :: rest) declared mode markup = .ok u false (some r) :=
+  unicodeDammitWithU_first T enc r rest [] declared mode markup u hne hf h
+
+/-- no known encodings, no byte-order mark: the first `user_encodings` entry that `find_codec` resolves and that
+    converts is the result -/
+theorem unicodeDammitWithU_user_first (T : MsTables) (enc r : PStr) (rest : List PStr) (declared : Option PStr) (mode : Mode)
+    (markup : Bytes) (u : PStr) (hne : markup ≠ []) (hb : stripBom markup = (markup, none)) (hf : findCodec enc = some r)
+    (h : convertWith T r mode false markup = some u) :
+    unicodeDammitWithU T [] (enc :: rest) declared mode markup = .ok u false (some r) := by
+  unfold unicodeDammitWithU
+  simp only [hne, if_false, hb]
+  obtain ⟨tl, htl⟩ := detectorEncodingsU_user_head enc rest declared
   simp only [htl, pass1, convertFromSt, hf, List.contains_nil, Bool.false_eq_true, if_false, List.nil_append,
     attempt_ok T r mode _ u h]
+
+/-- the default route: no encodings given, no byte-order mark, no declaration, input that is not valid UTF-8 —
+    `utf-8` is tried and fails, `windows-1252` converts -/
+theorem unicodeDammitWithU_default_route (T : MsTables) (mode : Mode) (markup : Bytes) (u : PStr)
+    (hfu : findCodec nUtf8 = some nUtf8) (hiu : codecInfo nUtf8 = .utf8) (hcu : isCarrier nUtf8 = false)
+    (hfw : findCodec nWindows1252 = some nWindows1252)
+    (hb : stripBom markup = (markup, none)) (hd : decodeUtf8 markup = none)
+    (h : convertWith T nWindows1252 mode false markup = some u) :
+    unicodeDammitWithU T [] [] none mode markup = .ok u false (some nWindows1252) := by
+  have hne : markup ≠ [] := by intro e; subst e; simp [decodeUtf8] at hd
+  have hcs : detectorEncodingsU [] none [] none = [nUtf8, nWindows1252] := by decide
+  have hcu' : codecOf nUtf8 = some .utf8 := by unfold codecOf; rw [hiu]
+  have hau : attempt T nUtf8 mode false markup = .fail := by
+    unfold attempt
+    simp only [hne, if_false, hiu, Bool.false_eq_true]
+    unfold convertWith
+    simp [hcu', hcu, decodeStrict, hd]
+  have hnc : ([(nUtf8, false)] : Tried).contains (nWindows1252, false) = false := by decide
+  unfold unicodeDammitWithU
+  simp only [hne, if_false, hb, hcs, pass1, convertFromSt, hfu, List.contains_nil, Bool.false_eq_true, List.nil_append, hau,
+    hfw, hnc, attempt_ok T nWindows1252 mode markup u h]
 
 theorem runCallsFrom_eq_map (st : ProcState) (cs : List DammitCall) : runCallsFrom st cs = cs.map runCall := by
   induction cs generalizing st with
